@@ -230,7 +230,7 @@ def main():
     chk.merge(core.parallel(shard, core.interleave(cases, core.NPROC)))
     chk.merge(core.parallel(shard, core.interleave(maps, core.NPROC)))
     chk.assumptions += ["astropy Time arithmetic; an observation exactly one whole cycle after the reference may land in the first or last bin (rounding)"]
-    return chk.finish()
+    return chk.finish(run_case)
 
 
 def replay(doc):
